@@ -64,7 +64,8 @@ def collect(chk, prop):
                 "rng": ("seed", rng.randrange(1 << 30)), "watchdog": 1 if n <= 24 else 15,
                 "ejk_order": rng.choice(["names", "reversed"]),
                 "keep_zero_keys": rng.random() < 0.5,          # zero pairings present as explicit 0.0 entries or absent keys
-                "zero_draws": rng.choice([0, 0, 6])}           # some uniform draws are exactly 0.0
+                "zero_draws": rng.choice([0, 0, 6]),           # some uniform draws are exactly 0.0
+                "retarget": rng.random() < 0.25}               # built with another target, re-targeted through the setter
         if rng.random() < 0.2:
             # object reuse: the same vertices carried other motifs (hence other joint degrees) in the network rewired before
             es0, jd0, _t = R.clean_network(rng, n, sizes, dens, names=names)
